@@ -95,7 +95,12 @@ func (p *Provider) Run(ctx context.Context, deps core.ProviderDeps) (err error) 
 }
 
 func (p *Provider) runFullScan(ctx context.Context) error {
+	filtered := len(p.Config.ChosenCases) > 0
+	delivered := uint(0)
 	for {
+		if filtered && p.Limit != 0 && delivered >= p.Limit {
+			return nil
+		}
 		if err := ctx.Err(); err != nil {
 			if !errors.Is(err, context.Canceled) {
 				err = xerrors.Errorf("error from context: %w", err)
@@ -121,6 +126,7 @@ func (p *Provider) runFullScan(ctx context.Context) error {
 			}
 			return err
 		case p.Sink <- ammo:
+			delivered++
 		}
 	}
 }
